@@ -159,11 +159,8 @@ func zzC10_gate() {
 			st.ServeDIAM(c, zzAppMsg(diam.AbortSession, 4, true))
 			zzExpect(fired, before, handshaken, 4)
 		}
-		if kind == 1 || kind == 2 {
-			if !handshaken {
-				break // the connection is closed after a rejected CER
-			}
-		}
+		// (after a rejected CER the connection is closed, but requests the peer pipelined behind the CER
+		// are still read from the connection's buffer and dispatched: the history goes on)
 		_, hasMeta := smpeer.FromContext(c.Context())
 		vObserve("fired", uint64(len(fired)))
 		vObserve("written", uint64(len(c.written)))
